@@ -186,7 +186,7 @@ class FX(object):
     pass
 
 
-FIXTURE_NAMES = ['lit', 'I_shl', 'I_add', 'I_push', 'I_pop', 'I_moves', 'I_div', 'w', 'T', 'U', 'Q', 'pc', 'regs', 'sys.path']
+FIXTURE_NAMES = ['lit', 'I_shl', 'I_add', 'I_push', 'I_pop', 'I_moves', 'I_sete', 'I_div', 'w', 'T', 'U', 'Q', 'pc', 'regs', 'sys.path']
 
 
 def build_fixtures():
@@ -195,13 +195,15 @@ def build_fixtures():
     f = FX()
     f.lit = {'b_mov': bytes.fromhex('8b4508'), 'b_shl': bytes.fromhex('d3e0'), 'b_in': bytes.fromhex('ec'),
              'b_movs': bytes.fromhex('a4'), 't_mov': 'mov eax, [ebx+4]', 't_shl': 'shl eax, cl',
-             't_in': 'in al, dx', 't_att': 'movl 4(%ebx), %eax', 't_bad': 'mov eax, [-eax]'}
+             't_in': 'in al, dx', 't_att': 'movl 4(%ebx), %eax', 't_bad': 'mov eax, [-eax]',
+             't_syn': 'mov eax ]'}
     dis = A.x86mnemo.dis
     f.I_shl = dis(bytes.fromhex('d3e0'))     # operand 2 is the table-owned r_cl dictionary itself
     f.I_add = dis(bytes.fromhex('83c001'))
     f.I_push = dis(bytes.fromhex('50'))
     f.I_pop = dis(bytes.fromhex('5b'))
     f.I_moves = dis(bytes.fromhex('8cc0'))   # mov eax, es
+    f.I_sete = dis(bytes.fromhex('8ec3'))    # mov es, ebx
     f.I_div = dis(bytes.fromhex('f7f3'))     # div ebx
     f.w = E.ExprId('w')
     f.T = E.ExprOp('+', E.ExprOp('+', S.eax, f.w), E.ExprInt32(0))    # shared tree over a module-level register and w
@@ -289,11 +291,25 @@ class Tables(object):
         return self.cache[q]
 
 
+def marks(nodes):
+    """the is_eval attributes of the watched nodes (a mark may be any object: numbered by first appearance)"""
+    seen, out = {}, []
+    for n in nodes:
+        v = n.is_eval
+        if v is False or v is None:
+            out.append('-')
+        elif v is True:
+            out.append('T')
+        else:
+            out.append(str(seen.setdefault(id(v), len(seen))))
+    return ','.join(out)
+
+
 def snapshot(f, tables, with_tables):
     snap = {'p': [fp(f.m[1].pool), fp(f.m[2].pool)],
             'x': [fp(getattr(f, n)) for n in FIXTURE_NAMES[:-1]] + [fp(process_env())],
             't': tables.fp() if with_tables else '',
-            'e': hashlib.md5(''.join('1' if n.is_eval else '0' for n in f.watched).encode()).hexdigest()[:8],
+            'e': hashlib.md5(marks(f.watched).encode()).hexdigest()[:8],
             's': hashlib.md5(''.join('1' if getattr(n, 'simp', False) else '0' for n in f.watched).encode()).hexdigest()[:8],
             'd': fp(defaults_state())[:8]}
     return snap
@@ -311,14 +327,11 @@ def _calls():
         return [mn.asm(f.lit[key], so), so]            # symbol_off is a documented output parameter
 
     def lift(f, ins):
-        args = []
-        r = EH.get_instr_expr(ins, f.pc, args)           # args is a documented output parameter
-        return [r, args]
+        r = EH.get_instr_expr(ins, f.pc)                 # default `args`; the operand expressions come back in ins.arg_expr
+        return [r, ins.arg_expr]
 
     def ev(f, m, e):
-        cache = {}
-        r = f.m[m].eval_expr(e, cache)                   # eval_cache is a documented output parameter
-        return [r, cache]
+        return f.m[m].eval_expr(e, {})                   # eval_cache: a memo the caller provides, not part of the result
 
     def evi(f, m, ins):
         ex = EH.get_instr_expr(ins, E.ExprInt32(3), [])
@@ -338,6 +351,7 @@ def _calls():
         'asm_in': ('pure', 0, lambda f: asm(f, 't_in')),
         'att_mov': ('pure', 0, lambda f: mn.asm_att(f.lit['t_att'])),
         'asm_bad': ('pure', 0, lambda f: asm(f, 't_bad')),
+        'asm_syn': ('pure', 0, lambda f: asm(f, 't_syn')),
         'str_shl': ('pure', 0, lambda f: str(f.I_shl)),
         'att_shl': ('pure', 0, lambda f: f.I_shl.__str__('att_syntax')),
         'lift_shl': ('pure', 0, lambda f: lift(f, f.I_shl)),
@@ -348,6 +362,7 @@ def _calls():
         'eval_eax_m2': ('read', 2, lambda f: ev(f, 2, S.eax)),
         'eval_w_m1': ('read', 1, lambda f: ev(f, 1, f.w)),
         'eval_w_m2': ('read', 2, lambda f: ev(f, 2, f.w)),
+        'eval_es_m1': ('read', 1, lambda f: ev(f, 1, S.es)),
         'eval_es_m2': ('read', 2, lambda f: ev(f, 2, S.es)),
         'eval_T_m2': ('read', 2, lambda f: ev(f, 2, f.T)),
         'eval_U_m1': ('read', 1, lambda f: ev(f, 1, f.U)),
@@ -356,7 +371,9 @@ def _calls():
         'evi_add_m1': ('write', 1, lambda f: evi(f, 1, f.I_add)),
         'emul_pp_m1': ('write', 1, lambda f: emul(f, 1, [f.I_push, f.I_pop])),
         'emul_es_m1': ('write', 1, lambda f: emul(f, 1, [f.I_moves])),
+        'emul_sete_m1': ('write', 1, lambda f: emul(f, 1, [f.I_sete])),
         'emul_div_m2': ('write', 2, lambda f: emul(f, 2, [f.I_div])),
+        'evi_setw_m1': ('write', 1, lambda f: f.m[1].eval_instr([E.ExprAff(f.w, E.ExprInt32(7))])),
     }
 
     # harness interventions (never part of a judged history): used to attribute a confirmed pollution to a channel
